@@ -117,7 +117,7 @@ func execHist(raw json.RawMessage) any {
 	reg := newKeyRegistry()
 	steps := []J{}
 	pre, _ := observeDir(m, reg)
-	initial := J{"pems": pre, "ranks": mtimeRanks(m)}
+	initial := J{"pems": pre, "ranks": mtimeRanks(m), "hashes": currentHashes(m)}
 	for _, st := range in.Steps {
 		so := J{"op": st.Op}
 		switch st.Op {
@@ -240,6 +240,7 @@ func execHist(raw json.RawMessage) any {
 		so["pems"] = pems
 		so["ranks"] = mtimeRanks(m)
 		so["files"] = fileList(m)
+		so["hashes"] = currentHashes(m)
 		steps = append(steps, so)
 	}
 	return J{"initial": initial, "steps": steps, "keys": reg.list()}
